@@ -11,9 +11,46 @@ import (
 	"sync"
 
 	yae "github.com/goghcrow/yae"
+	"github.com/goghcrow/yae/interp"
 	"github.com/goghcrow/yae/types"
 	"github.com/goghcrow/yae/val"
 )
+
+// programs for the shared compiled expressions: user-registered strict and LAZY functions (thunks, nested thunks),
+// conversion of composites to text, rendering, set operations, optionals
+var sharedProgs = []string{
+	`x + len(xs) + get(m, "k", 0)`, `pick(x > 0, x + 1000, x - 1000)`, `pick(x > 2, pick(x > 4, x * 10, x * 100), pick(x > 0, x + 1, x - 1)) + 7`,
+	`allof(x > 0, allof(x > 1, x > 2)) || x == 0`, `[pick(x > 3, twice(x), x), twice(x + 1)]`, `string(xs)`, `string(m)`, `string(o)`, `string([xs, xs])`, `string(mb)`,
+	`string([x: s])`, `string({p: xs, q: [x]})`, `[xs, xs]`, `{a: xs, b: m}`, `len(string(xs)) + len(string(m)) + x`, `union(xs, [x]) == intersect(xs, xs)`,
+	`string(union([[x]], [[x], [1]]))`, `if(x > 1, string(xs), string(m))`, `twice(twice(x)) + pick(x > 1, twice(x), 0)`,
+}
+
+func newEngine(kind int) *yae.Expr {
+	e := yae.NewExpr()
+	switch kind {
+	case 1:
+		e.UseClosureCompiler()
+	case 2:
+		e.UseCompiler(interp.Interp)
+	}
+	a := types.TyVar("a")
+	e.RegisterFun(
+		val.LazyFun(types.Fun("pick", []*types.Type{types.Bool, a, a}, a), func(args ...*val.Val) *val.Val {
+			if args[0].Fun().Call().Bool().V {
+				return args[1].Fun().Call()
+			}
+			return args[2].Fun().Call()
+		}),
+		val.LazyFun(types.Fun("allof", []*types.Type{types.Bool, types.Bool}, types.Bool), func(args ...*val.Val) *val.Val {
+			if !args[0].Fun().Call().Bool().V {
+				return val.False
+			}
+			return args[1].Fun().Call()
+		}),
+		val.Fun(types.Fun("twice", []*types.Type{types.Num}, types.Num), func(args ...*val.Val) *val.Val { return val.Num(args[0].Num().V * 2) }),
+	)
+	return e
+}
 
 var progs = []string{
 	`x + y * 2`, `len(xs) + max(xs)`, `if(x > 1, "a", "b")`, `get(xs, 1, 0) + get(m, "k", 0)`, `union(xs, [4, 5]) == [1, 2, 3, 4, 5]`,
@@ -98,15 +135,45 @@ func main() {
 	}
 	shared := yae.NewExpr()
 	shared.Compile("1", tenv()) // an engine that has finished its first compilation
-	callable, err := yae.NewExpr().Compile(`x + len(xs) + get(m, "k", 0)`, tenv())
-	if err != nil {
-		fmt.Println("MISMATCH setup", err)
-		os.Exit(3)
+	// shared compiled expressions on every back end, sequential outcomes first
+	type sharedC struct {
+		src  string
+		kind int
+		cl   yae.Callable
+		want [7]string
 	}
-	want := map[int]string{}
-	for k := 0; k < 7; k++ {
-		v, _ := callable(venv(k))
-		want[k] = v.String()
+	outOf := func(cl yae.Callable, env *val.Env) (out string) {
+		defer func() {
+			if r := recover(); r != nil {
+				out = fmt.Sprint("panic:", r)
+			}
+		}()
+		v, err := cl(env)
+		if err != nil {
+			return "error:" + err.Error()
+		}
+		return v.Type.String() + " " + v.String()
+	}
+	var cs []*sharedC
+	for kind := 0; kind < 3; kind++ {
+		e := newEngine(kind)
+		for _, src := range sharedProgs {
+			cl, err := e.Compile(src, tenv())
+			if err != nil {
+				fmt.Println("MISMATCH setup", src, err)
+				os.Exit(3)
+			}
+			c := &sharedC{src: src, kind: kind, cl: cl}
+			for k := 0; k < 7; k++ {
+				c.want[k] = outOf(cl, venv(k))
+			}
+			cs = append(cs, c)
+		}
+	}
+	// environment objects shared by all goroutines (never written after this point)
+	var sharedEnv [7]*val.Env
+	for k := range sharedEnv {
+		sharedEnv[k] = venv(k)
 	}
 	var wg sync.WaitGroup
 	var mu sync.Mutex
@@ -118,38 +185,40 @@ func main() {
 		go func(g int) {
 			defer wg.Done()
 			rn := rand.New(rand.NewSource(seed*1000 + int64(g)))
+			myOps, myMism := 0, 0
+			var lines []string
 			<-start
-			for i := 0; i < rn.Intn(50); i++ { // randomised start offset
-				_ = i * i
-			}
 			for i := 0; i < iters; i++ {
 				p := progs[rn.Intn(len(progs))]
 				k := rn.Intn(7)
-				var got, exp string
-				switch rn.Intn(3) {
+				var got, exp, what string
+				switch rn.Intn(8) {
 				case 0: // separate engine
-					got, exp = run(yae.NewExpr(), p, k), base[fmt.Sprint(p, "|", k)]
+					got, exp, what = run(yae.NewExpr(), p, k), base[fmt.Sprint(p, "|", k)], p
 				case 1: // the initialised shared engine
-					got, exp = run(shared, p, k), base[fmt.Sprint(p, "|", k)]
-				default: // one compiled expression, many goroutines, distinct environment objects
-					v, err := callable(venv(k))
-					if err != nil {
-						got = "error:" + err.Error()
-					} else {
-						got = v.String()
-					}
-					exp = want[k]
+					got, exp, what = run(shared, p, k), base[fmt.Sprint(p, "|", k)], p
+				case 2, 3, 4: // one compiled expression, many goroutines, distinct environment objects
+					c := cs[rn.Intn(len(cs))]
+					got, exp, what = outOf(c.cl, venv(k)), c.want[k], c.src
+				default: // one compiled expression, many goroutines, ONE environment object
+					c := cs[rn.Intn(len(cs))]
+					got, exp, what = outOf(c.cl, sharedEnv[k]), c.want[k], c.src+" (shared env)"
 				}
-				mu.Lock()
-				ops++
+				myOps++
 				if got != exp {
-					mism++
-					if mism <= 5 {
-						fmt.Printf("MISMATCH %q k=%d: concurrent %q, alone %q\n", p, k, got, exp)
+					myMism++
+					if len(lines) < 3 {
+						lines = append(lines, fmt.Sprintf("MISMATCH %q k=%d: concurrent %q, alone %q", what, k, got, exp))
 					}
 				}
-				mu.Unlock()
 			}
+			mu.Lock()
+			ops += myOps
+			mism += myMism
+			for _, l := range lines {
+				fmt.Println(l)
+			}
+			mu.Unlock()
 		}(g)
 	}
 	close(start)
